@@ -73,9 +73,12 @@ func (c *chacha20poly1305) open(dst, nonce, ciphertext, additionalData []byte) (
 	var state [16]uint32
 	setupState(&state, &c.key, nonce)
 
+	sealed := ciphertext
 	ciphertext = ciphertext[:len(ciphertext)-16]
 	ret, out := sliceForAppend(dst, len(ciphertext))
-	if alias.InexactOverlap(out, ciphertext) {
+	// The tag is read after the plaintext is written, so out must not
+	// overlap it either (except as ciphertext[:0], which never reaches it).
+	if alias.InexactOverlap(out, sealed) {
 		panic("chacha20poly1305: invalid buffer overlap of output and input")
 	}
 	if alias.AnyOverlap(out, additionalData) {
